@@ -18,6 +18,7 @@ EXPLANATION = (
     "task with a hint for its own worker (R5). Not decided: placement across pools created at run time by the "
     "partitioner, NUMA hints, the shared low-priority queue.")
 ASSUMPTIONS = ["thread_pool_base::create_work is implemented by scheduled_thread_pool only", "hints are honoured by the queue selection decided in C01.R7/C19.R4"]
+THOROUGH_CONFIGS = [["-UNDEBUG", "-DPIKA_DEBUG"]]
 FLOORS = {"C10.R1": 2, "C10.R2": 5, "C10.R3": 4, "C10.R4": 8, "C10.R5": 8}
 
 SETV = "pika::execution::experimental::set_value"
